@@ -46,6 +46,7 @@ class History:
         log = []            # every assert command that reached `assertions.push`: (uid, sx stripped, accepted)
         uid = 0
         k = 0
+        overlap = []
         minlevel = 0
         for c in self.cmds:
             if not isinstance(c, list) or not c:
@@ -82,6 +83,10 @@ class History:
                     continue
                 log.append((uid, body, True))
                 frames[-1].append((uid, t, name))
+                alive = {x[0] for f in frames for x in f}
+                for (u2, b2, ok2) in log[:-1]:
+                    if ok2 and u2 in alive and b2 == body:
+                        overlap.append((u2, uid))       # the same term asserted again while the earlier assertion is still current
             elif h == "push":
                 for _ in range(int(c[1]) if len(c) > 1 else 1):
                     frames.append([])
@@ -92,8 +97,10 @@ class History:
                         minlevel = min(minlevel, len(frames) - 1)
             elif h in ("check-sat", "get-interpolants"):
                 k += 1
+                cur_uids = {x[0] for f in frames for x in f}
                 self.queries.append(dict(k=k, kind=h, cmd=c, current=[x for f in frames for x in f], sig=sig,
-                                         opts=dict(opts), log=list(log), level=len(frames) - 1, minlevel=minlevel))
+                                         opts=dict(opts), log=list(log), level=len(frames) - 1, minlevel=minlevel,
+                                         dup_popped=any(u not in cur_uids or v not in cur_uids for (u, v) in overlap)))
                 minlevel = len(frames) - 1
         self.sig = sig
 
@@ -456,6 +463,10 @@ class Judge:
                 if self.z3_unsat(logic, decls, bodies) or self.z3_unsat(logic, decls, [["not", ["and"] + bodies]]):
                     tags.append("and-group-folds")
                     break
+        if q.get("dup_popped"):
+            # FlaPartitionMap is keyed by the term: a term asserted twice at the same time has ONE partition index (the later one);
+            # popping either assertion leaves a stale index / stale partition bits behind
+            tags.append("dup-popped-stale-partition")
         if q.get("after_popped_unsat"):
             tags.append("after-popped-unsat")
         elif q["level"] > 0 or any(c[0] == "pop" for c in hist.cmds if isinstance(c, list) and c):
